@@ -22,6 +22,19 @@ def CrcVal.known : CrcVal → Bool
   | .unknown _ => false
   | _ => true
 
+/-- what a decoder can hand back: wire values, or an unknown type code 3..255 (which has no CRC field) -/
+def CrcVal.wireX : CrcVal → Bool
+  | .unknown k => decide (3 ≤ k) && decide (k < 256)
+  | c => c.wire
+
+/-- CRC values of the extended C01 domain: a known type in any prior state, or an unknown code 3..255 -/
+def CrcVal.knownX : CrcVal → Bool
+  | .unknown k => decide (3 ≤ k) && decide (k < 256)
+  | _ => true
+
+theorem CrcVal.wireX_of_wire (c : CrcVal) (h : c.wire = true) : c.wireX = true := by
+  cases c <;> simp_all [CrcVal.wire, CrcVal.wireX]
+
 def Primary.wf (p : Primary) : Bool :=
   decide (p.version < U32) && decide (p.flags < U64) && p.crc.known
   && p.dst.wf && p.src.wf && p.rpt.wf
@@ -42,6 +55,30 @@ def Canon.wf (c : Canon) : Bool :=
       | .decErr => false)
 
 def Bundle.wf (b : Bundle) : Bool := b.primary.wf && b.canon.all Canon.wf
+
+/-- the field conditions of `wf` alone, whatever the CRC value is -/
+def Primary.wfF (p : Primary) : Bool := ({ p with crc := .no } : Primary).wf
+def Canon.wfF (c : Canon) : Bool := ({ c with crc := .no } : Canon).wf
+
+theorem Primary.isFragment_setCrc (p : Primary) (c : CrcVal) : ({ p with crc := c } : Primary).isFragment = p.isFragment := rfl
+theorem Primary.setCrc_updateCrc (p : Primary) : ({ p.updateCrc with crc := .no } : Primary) = { p with crc := .no } := rfl
+theorem Canon.setCrc_updateCrc (c : Canon) : ({ c.updateCrc with crc := .no } : Canon) = { c with crc := .no } := rfl
+theorem Primary.wfF_updateCrc (p : Primary) : p.updateCrc.wfF = p.wfF := by
+  unfold Primary.wfF; rw [Primary.setCrc_updateCrc]
+theorem Canon.wfF_updateCrc (c : Canon) : c.updateCrc.wfF = c.wfF := by
+  unfold Canon.wfF; rw [Canon.setCrc_updateCrc]
+
+theorem Primary.wfF_of_wf (p : Primary) (h : p.wf = true) : p.wfF = true := by
+  simp only [Primary.wfF, Primary.wf, Primary.isFragment, Bool.and_eq_true] at h ⊢
+  simp_all [CrcVal.known]
+theorem Canon.wfF_of_wf (c : Canon) (h : c.wf = true) : c.wfF = true := by
+  simp only [Canon.wfF, Canon.wf, Bool.and_eq_true] at h ⊢
+  simp_all [CrcVal.known]
+
+/-- the extended C01 domain: as `wf`, with CRC type codes the library does not know allowed -/
+def Primary.wfX (p : Primary) : Bool := p.wfF && p.crc.knownX
+def Canon.wfX (c : Canon) : Bool := c.wfF && c.crc.knownX
+def Bundle.wfX (b : Bundle) : Bool := b.primary.wfX && b.canon.all Canon.wfX
 
 /-! ## pairs and endpoint IDs -/
 
@@ -95,7 +132,7 @@ end Bp7
 
 namespace Bp7
 
-theorem visitCrc_enc (c : CrcVal) (hw : c.wire = true) (n : Nat) (rest : Bytes) (d : Nat) :
+theorem visitCrc_enc (c : CrcVal) (hw : c.wireX = true) (n : Nat) (rest : Bytes) (d : Nat) :
     visitCrc c.toCode (some (n + crcFieldCount c)) ⟨encCrcField c ++ rest, d⟩
       = (.ok (c, some n), ⟨rest, d⟩) := by
   cases c with
@@ -106,13 +143,18 @@ theorem visitCrc_enc (c : CrcVal) (hw : c.wire = true) (n : Nat) (rest : Bytes) 
   | v32 x y z w =>
     have := readByteBuf_enc [x, y, z, w] (by simp) rest d
     simp [visitCrc, CrcVal.toCode, crcFieldCount, CrcVal.bytes, encCrcField, reqElem_succ, this]
-  | empty16 => simp [CrcVal.wire] at hw
-  | empty32 => simp [CrcVal.wire] at hw
-  | unknown k => simp [CrcVal.wire] at hw
+  | empty16 => simp [CrcVal.wire, CrcVal.wireX] at hw
+  | empty32 => simp [CrcVal.wire, CrcVal.wireX] at hw
+  | unknown k =>
+    simp only [CrcVal.wireX, Bool.and_eq_true, decide_eq_true_eq] at hw
+    have h0 : k ≠ 0 := by omega
+    have h1 : k ≠ 1 := by omega
+    have h2 : k ≠ 2 := by omega
+    simp [visitCrc, CrcVal.toCode, crcFieldCount, CrcVal.bytes, encCrcField, h0, h1, h2]
 
 theorem isFragment_iff (p : Primary) : p.isFragment = flagsContain F_ALL p.flags F_IS_FRAGMENT := rfl
 
-theorem visitPrimary_enc (p : Primary) (h : p.wf = true) (hw : p.crc.wire = true)
+theorem visitPrimary_enc (p : Primary) (h : p.wfF = true) (hw : p.crc.wireX = true)
     (rest : Bytes) (d : Nat) (hd : 3 ≤ d) :
     visitPrimary (some (8 + (if p.isFragment then 2 else 0) + crcFieldCount p.crc))
       ⟨encUint p.version ++ encUint p.flags ++ encUint p.crc.toCode
@@ -122,7 +164,7 @@ theorem visitPrimary_enc (p : Primary) (h : p.wf = true) (hw : p.crc.wire = true
         ++ (if p.isFragment then encUint p.fragOff ++ encUint p.total else [])
         ++ encCrcField p.crc ++ rest, d⟩
       = (.ok (p, some 0), ⟨rest, d⟩) := by
-  simp only [Primary.wf, Bool.and_eq_true, decide_eq_true_eq, U64_eq, U32_eq] at h
+  simp only [Primary.wfF, Primary.wf, Primary.isFragment_setCrc, Bool.and_eq_true, decide_eq_true_eq, U64_eq, U32_eq] at h
   obtain ⟨⟨⟨⟨⟨⟨⟨⟨⟨⟨⟨hver, hfl⟩, _⟩, hdst⟩, hsrc⟩, hrpt⟩, hts⟩, hseq⟩, hlt⟩, hfo⟩, htot⟩, hfr⟩ := h
   have hver := of_decide_eq_true hver
   have hfl := of_decide_eq_true hfl
@@ -132,7 +174,7 @@ theorem visitPrimary_enc (p : Primary) (h : p.wf = true) (hw : p.crc.wire = true
   have hfo := of_decide_eq_true hfo
   have htot := of_decide_eq_true htot
   have hcode : p.crc.toCode < 256 := by
-    cases hc : p.crc <;> simp [hc, CrcVal.wire] at hw <;> simp [CrcVal.toCode]
+    cases hc : p.crc <;> simp [hc, CrcVal.wire, CrcVal.wireX] at hw <;> simp [CrcVal.toCode] <;> omega
   have hpair := fun r => readPairU64_enc p.ts p.seq hts hseq r d (by omega)
   simp only [List.append_assoc] at hpair
   by_cases hfrag : p.isFragment = true
@@ -174,7 +216,7 @@ namespace Bp7
 theorem crcFieldCount_le (c : CrcVal) : crcFieldCount c ≤ 1 := by
   unfold crcFieldCount; split <;> omega
 
-theorem readPrimary_enc (p : Primary) (h : p.wf = true) (hw : p.crc.wire = true)
+theorem readPrimary_encX (p : Primary) (h : p.wfF = true) (hw : p.crc.wireX = true)
     (rest : Bytes) (d : Nat) (hd : 4 ≤ d) :
     readPrimary ⟨encPrimary p ++ rest, d⟩ = (.ok p, ⟨rest, d⟩) := by
   obtain ⟨d', rfl⟩ : ∃ d', d = d' + 1 := ⟨d - 1, by omega⟩
@@ -195,8 +237,8 @@ theorem fromSlice_enc {α} (rd : P α) (enc : Bytes) (v : α)
   simp only [List.append_nil] at h
   simp [fromSlice, h]
 
-theorem decodeBtsd_enc (c : Canon) (h : c.wf = true) : decodeBtsd c.btype (btsd c.data) = .ok c.data := by
-  simp only [Canon.wf, Bool.and_eq_true] at h
+theorem decodeBtsd_encX (c : Canon) (h : c.wfF = true) : decodeBtsd c.btype (btsd c.data) = .ok c.data := by
+  simp only [Canon.wfF, Canon.wf, Bool.and_eq_true] at h
   obtain ⟨_, hd⟩ := h
   cases hdat : c.data with
   | data b =>
@@ -234,8 +276,8 @@ theorem decodeBtsd_enc (c : Canon) (h : c.wf = true) : decodeBtsd c.btype (btsd 
     simp [decodeBtsd, btsd, h1, h7, h10, h6]
   | decErr => simp [hdat] at hd
 
-theorem btsd_length (c : Canon) (h : c.wf = true) : (btsd c.data).length < 18446744073709551616 := by
-  simp only [Canon.wf, Bool.and_eq_true] at h
+theorem btsd_lengthX (c : Canon) (h : c.wfF = true) : (btsd c.data).length < 18446744073709551616 := by
+  simp only [Canon.wfF, Canon.wf, Bool.and_eq_true] at h
   exact of_decide_eq_true h.1.2
 
 end Bp7
@@ -244,19 +286,19 @@ namespace Bp7
 
 theorem liftRes_ok {α} (a : α) (s : St) : liftRes (.ok a) s = (.ok a, s) := rfl
 
-theorem readCanon_enc (c : Canon) (h : c.wf = true) (hw : c.crc.wire = true)
+theorem readCanon_encX (c : Canon) (h : c.wfF = true) (hw : c.crc.wireX = true)
     (rest : Bytes) (d : Nat) (hd : 3 ≤ d) :
     readCanon ⟨encCanon c ++ rest, d⟩ = (.ok c, ⟨rest, d⟩) := by
   obtain ⟨d', rfl⟩ : ∃ d', d = d' + 1 := ⟨d - 1, by omega⟩
-  have hb := decodeBtsd_enc c h
-  have hbl := btsd_length c h
-  simp only [Canon.wf, Bool.and_eq_true, U64_eq] at h
+  have hb := decodeBtsd_encX c h
+  have hbl := btsd_lengthX c h
+  simp only [Canon.wfF, Canon.wf, Bool.and_eq_true, U64_eq] at h
   obtain ⟨⟨⟨⟨⟨ht, hn⟩, hf⟩, _⟩, _⟩, _⟩ := h
   have ht := of_decide_eq_true ht
   have hn := of_decide_eq_true hn
   have hf := of_decide_eq_true hf
   have hcode : c.crc.toCode < 256 := by
-    cases hc : c.crc <;> simp [hc, CrcVal.wire] at hw <;> simp [CrcVal.toCode]
+    cases hc : c.crc <;> simp [hc, CrcVal.wire, CrcVal.wireX] at hw <;> simp [CrcVal.toCode] <;> omega
   have hvc := visitCrc_enc c.crc hw 0 rest d'
   simp only [Nat.zero_add] at hvc
   have hcnt := crcFieldCount_le c.crc
@@ -304,7 +346,7 @@ theorem encCanons_length (cs : List Canon) : cs.length ≤ ((cs.map encCanon).fl
     simp only [List.map_cons, List.flatten_cons, List.length_append, List.length_cons, hb]
     omega
 
-theorem collectCanons (cs : List Canon) (hwf : ∀ c ∈ cs, c.wf = true ∧ c.crc.wire = true)
+theorem collectCanonsX (cs : List Canon) (hwf : ∀ c ∈ cs, c.wfF = true ∧ c.crc.wireX = true)
     (d : Nat) (hd : 3 ≤ d) (rest : Bytes) :
     ∀ (fuel : Nat) (out : List Canon), cs.length < fuel →
       collectElems readCanon fuel out none ⟨(cs.map encCanon).flatten ++ (255 :: rest), d⟩
@@ -318,7 +360,7 @@ theorem collectCanons (cs : List Canon) (hwf : ∀ c ∈ cs, c.wf = true ∧ c.c
     intro fuel out hf
     obtain ⟨f, rfl⟩ : ∃ f, fuel = f + 1 := ⟨fuel - 1, by simp at hf; omega⟩
     have hc := hwf c (by simp)
-    have hrd := readCanon_enc c hc.1 hc.2 ((cs.map encCanon).flatten ++ (255 :: rest)) d hd
+    have hrd := readCanon_encX c hc.1 hc.2 ((cs.map encCanon).flatten ++ (255 :: rest)) d hd
     obtain ⟨b, tl, hb, hne⟩ := encCanon_cons c
     have ih' := ih (fun x hx => hwf x (by simp [hx])) f (out ++ [c]) (by simp at hf; omega)
     simp only [List.map_cons, List.flatten_cons, List.append_assoc]
@@ -376,12 +418,12 @@ theorem Canon.updateCrc_wf (c : Canon) (h : c.wf = true) :
   simp_all
 
 /-- decoding `9f <blocks> ff` for a bundle whose stored CRC values are wire values -/
-theorem decodeBundle_enc (b : Bundle) (hp : b.primary.wf = true ∧ b.primary.crc.wire = true)
-    (hc : ∀ c ∈ b.canon, c.wf = true ∧ c.crc.wire = true) :
+theorem decodeBundle_encX (b : Bundle) (hp : b.primary.wfF = true ∧ b.primary.crc.wireX = true)
+    (hc : ∀ c ∈ b.canon, c.wfF = true ∧ c.crc.wireX = true) :
     decodeBundle ([0x9f] ++ encBlocks b ++ [0xff]) = .ok b := by
   obtain ⟨pb, ptl, hpe, hpne⟩ := encPrimary_cons b.primary
-  have hrp := readPrimary_enc b.primary hp.1 hp.2 ((b.canon.map encCanon).flatten ++ [255]) 127 (by omega)
-  have hcol := collectCanons b.canon hc 127 (by omega) []
+  have hrp := readPrimary_encX b.primary hp.1 hp.2 ((b.canon.map encCanon).flatten ++ [255]) 127 (by omega)
+  have hcol := collectCanonsX b.canon hc 127 (by omega) []
     (((b.canon.map encCanon).flatten ++ [255]).length + 1) []
     (by have := encCanons_length b.canon; simp only [List.length_append, List.length_cons, List.length_nil]; omega)
   rw [hpe] at hrp
@@ -397,5 +439,67 @@ theorem decodeBundle_enc (b : Bundle) (hp : b.primary.wf = true ∧ b.primary.cr
   simp only [List.nil_append] at hcol
   rw [hcol]
   simp [seqEnd]
+
+theorem decodeBundle_enc (b : Bundle) (hp : b.primary.wf = true ∧ b.primary.crc.wire = true)
+    (hc : ∀ c ∈ b.canon, c.wf = true ∧ c.crc.wire = true) :
+    decodeBundle ([0x9f] ++ encBlocks b ++ [0xff]) = .ok b :=
+  decodeBundle_encX b ⟨b.primary.wfF_of_wf hp.1, CrcVal.wireX_of_wire _ hp.2⟩
+    (fun c h => ⟨c.wfF_of_wf (hc c h).1, CrcVal.wireX_of_wire _ (hc c h).2⟩)
+
+/-! ## the extended domain: unknown CRC type codes survive `calculate_crc` untouched -/
+
+theorem calcCrc_wireX {β} (enc : β → Bytes) (getc : β → CrcVal) (setc : β → CrcVal → β) (b : β)
+    (hk : (getc b).knownX = true) : (calcCrc enc getc setc b).wireX = true := by
+  unfold calcCrc
+  cases h : getc b <;> simp [h, CrcVal.knownX] at hk <;> simp [CrcVal.toCode, CrcVal.wire, CrcVal.wireX, be16, be32]
+  rename_i k
+  have h0 : k ≠ 0 := by omega
+  have h1 : k ≠ 1 := by omega
+  have h2 : k ≠ 2 := by omega
+  simp [h0, h1, h2, CrcVal.wireX, hk]
+
+theorem Primary.updateCrc_wfX (p : Primary) (h : p.wfX = true) :
+    p.updateCrc.wfF = true ∧ p.updateCrc.crc.wireX = true := by
+  simp only [Primary.wfX, Bool.and_eq_true] at h
+  have hw : p.calcCrc.wireX = true := calcCrc_wireX _ _ _ p h.2
+  exact ⟨by rw [Primary.wfF_updateCrc]; exact h.1, hw⟩
+
+theorem Canon.updateCrc_wfX (c : Canon) (h : c.wfX = true) :
+    c.updateCrc.wfF = true ∧ c.updateCrc.crc.wireX = true := by
+  simp only [Canon.wfX, Bool.and_eq_true] at h
+  have hw : c.calcCrc.wireX = true := calcCrc_wireX _ _ _ c h.2
+  exact ⟨by rw [Canon.wfF_updateCrc]; exact h.1, hw⟩
+
+theorem Bundle.wfX_of_wf (b : Bundle) (h : b.wf = true) : b.wfX = true := by
+  simp only [Bundle.wf, Bundle.wfX, Bool.and_eq_true, List.all_eq_true] at h ⊢
+  refine ⟨?_, fun c hc => ?_⟩
+  · have hk : b.primary.crc.known = true := by
+      have := h.1; simp only [Primary.wf, Bool.and_eq_true] at this; exact this.1.1.1.1.1.1.1.1.1.2
+    simp only [Primary.wfX, Bool.and_eq_true]
+    exact ⟨b.primary.wfF_of_wf h.1, by cases hc : b.primary.crc <;> simp_all [CrcVal.known, CrcVal.knownX]⟩
+  · have hk : c.crc.known = true := by
+      have := h.2 c hc; simp only [Canon.wf, Bool.and_eq_true] at this; exact this.1.1.2
+    simp only [Canon.wfX, Bool.and_eq_true]
+    exact ⟨c.wfF_of_wf (h.2 c hc), by cases hcc : c.crc <;> simp_all [CrcVal.known, CrcVal.knownX]⟩
+
+/-! the same lemmas on the `wf` / `wire` domain, as used by C19 -/
+theorem readPrimary_enc (p : Primary) (h : p.wf = true) (hw : p.crc.wire = true)
+    (rest : Bytes) (d : Nat) (hd : 4 ≤ d) :
+    readPrimary ⟨encPrimary p ++ rest, d⟩ = (.ok p, ⟨rest, d⟩) :=
+  readPrimary_encX p (p.wfF_of_wf h) (CrcVal.wireX_of_wire _ hw) rest d hd
+theorem decodeBtsd_enc (c : Canon) (h : c.wf = true) : decodeBtsd c.btype (btsd c.data) = .ok c.data :=
+  decodeBtsd_encX c (c.wfF_of_wf h)
+theorem btsd_length (c : Canon) (h : c.wf = true) : (btsd c.data).length < 18446744073709551616 :=
+  btsd_lengthX c (c.wfF_of_wf h)
+theorem readCanon_enc (c : Canon) (h : c.wf = true) (hw : c.crc.wire = true)
+    (rest : Bytes) (d : Nat) (hd : 3 ≤ d) :
+    readCanon ⟨encCanon c ++ rest, d⟩ = (.ok c, ⟨rest, d⟩) :=
+  readCanon_encX c (c.wfF_of_wf h) (CrcVal.wireX_of_wire _ hw) rest d hd
+theorem collectCanons (cs : List Canon) (hwf : ∀ c ∈ cs, c.wf = true ∧ c.crc.wire = true)
+    (d : Nat) (hd : 3 ≤ d) (rest : Bytes) :
+    ∀ (fuel : Nat) (out : List Canon), cs.length < fuel →
+      collectElems readCanon fuel out none ⟨(cs.map encCanon).flatten ++ (255 :: rest), d⟩
+        = (.ok (out ++ cs, none), ⟨255 :: rest, d⟩) :=
+  collectCanonsX cs (fun c h => ⟨c.wfF_of_wf (hwf c h).1, CrcVal.wireX_of_wire _ (hwf c h).2⟩) d hd rest
 
 end Bp7
